@@ -159,11 +159,35 @@ class Check:
         self.t0 = time.time()
         self.native_evals = 0
         self.samples = []
+        self._borrow = None        # property id whose contracts / native clauses are being reused (see borrow())
 
     # ------------------------------------------------------------------ building
+    def borrow(self, prop_id):
+        """context manager: obligations and stand-ins added inside come from the contracts of another property on which this
+        property's statement depends; their native clauses live in native/<prop_id>.py (clause names are prefixed '<prop_id>:')"""
+        chk = self
+
+        class _B:
+            def __enter__(self_):
+                self_.prev = chk._borrow
+                chk._borrow = prop_id
+
+            def __exit__(self_, *a):
+                chk._borrow = self_.prev
+                return False
+        return _B()
+
+    def _cl(self, clause):
+        if clause is not None and self._borrow and ":" not in clause:
+            return self._borrow + ":" + clause
+        return clause
+
     def add(self, name, hyps, goal, function, encoding="qf-arith", clause=None, replay=None, lemmas=None, kind="post"):
         if self.only and self.only not in name:
             return None
+        clause = self._cl(clause)
+        if self._borrow:
+            name = "[%s] %s" % (self._borrow, name)
         hyps = list(hyps) + uf_axiom_instances([goal] + list(hyps))
         o = Obligation(name, hyps, goal, function, encoding, clause, replay, lemmas, "unsat", kind)
         self.obligations.append(o)
@@ -310,7 +334,11 @@ class Check:
     # ------------------------------------------------------------------ native side
     def native(self, mode, clause, inputs=None, timeout=600):
         """run /verif/native/<id>.py under the repo's interpreter: returns dict"""
-        script = os.path.join(VERIF, "native", self.prop_id + ".py")
+        owner = self.prop_id
+        clause = self._cl(clause)
+        if clause is not None and ":" in clause and clause.split(":")[0][:1] == "C" and clause.split(":")[0][1:].isdigit():
+            owner, clause = clause.split(":", 1)
+        script = os.path.join(VERIF, "native", owner + ".py")
         env = dict(os.environ)
         env["PYTHONPATH"] = frontend.REPO
         env["AOVC_REPO"] = frontend.REPO
@@ -342,6 +370,7 @@ class Check:
 
     def bounded_native(self, name, clause, bound, function=""):
         """a bounded stand-in: the native clause evaluated on its deterministic family of inputs (never counted as proved)"""
+        clause = self._cl(clause)
         fam = self.native("family", clause, None)
         n = int(fam.get("evaluations", 0) or 0)
         self.native_evals += n
@@ -473,11 +502,53 @@ class Check:
             exit_code = max(exit_code, 3)
         for e in self.known:
             print("KNOWN-FINDING: property=%s %s" % (self.prop_id, e))
-        self.write_evidence(exit_code)
+        if self.tier == "thorough" and not os.environ.get("AOVC_NO_SELFTEST"):
+            self.seeded_selftest()
+        if not os.environ.get("AOVC_NO_EVIDENCE"):
+            self.write_evidence(exit_code)
         dis = sum(1 for o in proof_obls if o.verdict == "unsat")
         print("%s %s: %d/%d obligations discharged, %d cover checks, %d bounded stand-ins, %d native evaluations, %.1fs -> exit %d" % (
             self.prop_id, self.tier, dis, len(proof_obls), len(covers), len(self.bounded), self.native_evals, time.time() - self.t0, exit_code))
         return exit_code
+
+    def seeded_selftest(self):
+        """thorough tier: honesty check of this check itself.  Every recorded property-breaking change of this property
+        (seeded/<id>-m*/patch.diff) is applied to a scratch copy of the CURRENT tree (outside /repo and /verif, removed afterwards)
+        and the quick check is run on it; it must report a violation.  Survivors are recorded in the evidence (they do not change
+        the verdict on the current tree: the property is judged by the obligations above, not by the self-test)."""
+        import glob, shutil
+        self.selftest = []
+        patches = sorted(glob.glob(os.path.join(VERIF, "seeded", self.prop_id + "-m*", "patch.diff")))
+        for patch in patches:
+            name = os.path.basename(os.path.dirname(patch))
+            tmp = tempfile.mkdtemp(prefix="aovc_selftest_")
+            rec = {"change": name}
+            try:
+                shutil.copytree(os.path.join(frontend.REPO, "aotools"), os.path.join(tmp, "aotools"),
+                                ignore=shutil.ignore_patterns("__pycache__", "*.pyc"))
+                p = subprocess.run(["git", "apply", "--unsafe-paths", "--directory=" + tmp, patch], cwd=tmp, capture_output=True, text=True)
+                if p.returncode != 0:
+                    p = subprocess.run(["patch", "-p1", "-s", "-i", patch], cwd=tmp, capture_output=True, text=True)
+                if p.returncode != 0:
+                    rec.update(result="patch does not apply to the current tree (skipped)")
+                    self.selftest.append(rec)
+                    continue
+                env = dict(os.environ, AOVC_REPO=tmp, AOVC_NO_EVIDENCE="1", AOVC_NO_SELFTEST="1")
+                q = subprocess.run([sys.executable, os.path.join(VERIF, "checks", self.prop_id + ".py"), "--tier", "quick"],
+                                   cwd=VERIF, env=env, capture_output=True, text=True, timeout=3600)
+                vio = [l for l in q.stdout.splitlines() if l.startswith("VIOLATION ")]
+                failed = [l for l in q.stdout.splitlines() if l.startswith("FAILED ")]
+                rec.update(exit=q.returncode, reported=bool(vio) and q.returncode == 1,
+                           first=(failed[0] if failed else (vio[0] if vio else q.stdout.strip().splitlines()[-1:] or [""]))[:300] if (failed or vio) else "")
+            except Exception as ex:
+                rec.update(result="self-test error: %r" % ex)
+            finally:
+                shutil.rmtree(tmp, ignore_errors=True)
+            self.selftest.append(rec)
+            print("SELFTEST change=%s -> %s" % (name, "reported (exit 1)" if rec.get("reported") else "NOT reported: %s" % rec))
+        surv = [r["change"] for r in self.selftest if "reported" in r and not r["reported"]]
+        if surv:
+            self.notes.append("self-test: seeded changes NOT reported by this check: %s" % ", ".join(surv))
 
     def matches_known(self, open_known, o, nat):
         """a natively reproduced failure is a listed finding iff the native side tags it with that finding's id
@@ -534,6 +605,7 @@ class Check:
                 "native_evaluations": self.native_evals,
                 "solver_time_s": round(sum(o.solver_s for o in self.obligations), 3),
                 "notes": self.notes,
+                "seeded_selftest": getattr(self, "selftest", None),
                 "repo": frontend.REPO,
                 "exit_code": exit_code,
             },
